@@ -144,3 +144,56 @@ fn logical_op__precedence_order() {
     assert!((a < b) == (rank(a) < rank(b)));
     assert!((Some(a) <= Some(b)) == (rank(a) <= rank(b)));
 }
+
+// ---------------------------------------------------------------------------
+// and / or / xor on single booleans: the `Combining` arm of
+// `LogicalExpr::compile_with_compiler`, lifted mechanically (kani/extract_arms.py),
+// checked against the contract of its compiled children (Canned closures).
+use super::extracted;
+
+fn combining_one<const N: usize>() {
+    let scheme = scheme_of(&[(Type::Bool, false)], true);
+    let vals: [bool; N] = kani::any();
+    let op = any_op();
+    let mut items = Vec::with_capacity(N);
+    let mut i = 0;
+    while i < N {
+        items.push(leaf(&scheme));
+        i += 1;
+    }
+    let mut c = Canned { next: 0, vals };
+    let compiled = extracted::arm_combining(&mut c, op, items);
+    assert!(c.next == N, "every operand is compiled exactly once, in order");
+    let got = run_one(compiled, &scheme);
+    let mut all = true;
+    let mut any = false;
+    let mut parity = false;
+    let mut i = 0;
+    while i < N {
+        all = all && vals[i];
+        any = any || vals[i];
+        parity = parity ^ vals[i];
+        i += 1;
+    }
+    let want = match op {
+        LogicalOp::And => all,
+        LogicalOp::Or => any,
+        LogicalOp::Xor => parity,
+    };
+    assert!(got == want, "and = all operands, or = some operand, xor = odd number of true operands");
+    kani::cover!(op == LogicalOp::Xor && got);
+    kani::cover!(op == LogicalOp::And && !got);
+    std::mem::forget(scheme);
+}
+
+#[kani::proof]
+#[kani::unwind(5)]
+fn combining_one__and_or_xor_n2() {
+    combining_one::<2>()
+}
+
+#[kani::proof]
+#[kani::unwind(6)]
+fn combining_one__and_or_xor_n3() {
+    combining_one::<3>()
+}
